@@ -988,6 +988,21 @@ impl ContinuityStore {
             (head_seq, last_message)
         };
 
+        if let Some(artifact_id) = summary_artifact_id.as_deref() {
+            // The handoff frame is permanent, so a summary given by id has to resolve now.
+            let blob = self
+                .workspace_root
+                .join(".rip")
+                .join("artifacts")
+                .join("blobs")
+                .join(artifact_id);
+            if !blob.is_file() {
+                return Err(format!(
+                    "handoff summary_artifact_id not found: {artifact_id}"
+                ));
+            }
+        }
+
         if summary_artifact_id.is_none() {
             if let Some(markdown) = summary_markdown.as_ref() {
                 let bundle = HandoffContextBundleV1::new_source_cut(
